@@ -13,6 +13,7 @@ package c19
 import (
 	"context"
 	"crypto/tls"
+	"errors"
 	"fmt"
 	"io"
 	"log"
@@ -194,6 +195,8 @@ func TestCheck(t *testing.T) {
 	r.Floor("dials_checked", 2*nn)
 	r.Floor("quic_dials_checked", nn/12)
 	r.Floor("incompatible_targets_offered", nn/8)
+	// -- URLs whose host is an IP literal: no DNS, the server name is the literal without brackets, one dial per request --
+	literalHosts(r)
 	r.Floor("alias_origins", nn/8)
 	r.Floor("ech_accepted", nn/10)
 	r.Floor("plaintext_allowed_served", nn/40)
@@ -608,4 +611,77 @@ func svcList(m *model) string {
 		out = append(out, fmt.Sprintf("%s: [%s]", rd.End, strings.Join(recs, " ")))
 	}
 	return strings.Join(out, " | ")
+}
+
+// literalHosts sends requests to URLs whose host is an IP literal through a Transport whose DialFunc records its
+// arguments and fails. The Transport must dial the literal itself (every attempt fails, so once per request and target),
+// with the literal - without brackets - as TLS server name, and must return the dial error instead of looping.
+func literalHosts(r *mon.Run) {
+	type lc struct{ url, addr, sn string }
+	cases := []lc{
+		{"https://[2001:db8::9]/x", "[2001:db8::9]:443", "2001:db8::9"},
+		{"https://[2001:db8::9]:8443/x", "[2001:db8::9]:8443", "2001:db8::9"},
+		{"https://[::1]/", "[::1]:443", "::1"},
+		{"https://192.0.2.9/x", "192.0.2.9:443", "192.0.2.9"},
+		{"https://192.0.2.9:8443/", "192.0.2.9:8443", "192.0.2.9"},
+	}
+	r.ParallelW("literals", len(cases)*2, 1, func(i int, _ *mrand.Rand) {
+		c := cases[i%len(cases)]
+		h2 := i >= len(cases)
+		type call struct{ Addr, ServerName string }
+		var mu sync.Mutex
+		var calls []call
+		tr := ech.NewTransport()
+		res, err := ech.NewResolver("http://127.0.0.1:1/unused") // a literal needs no DNS: any query would fail
+		if err != nil {
+			r.Inconclusive("fixture: %v", err)
+			return
+		}
+		tr.Resolver = res
+		tr.TLSConfig = &tls.Config{}
+		if h2 {
+			tr.TLSConfig.NextProtos = []string{"h2", "http/1.1"}
+		}
+		tr.Dialer.DialFunc = func(ctx context.Context, network, addr string, tc *tls.Config) (*tls.Conn, error) {
+			mu.Lock()
+			calls = append(calls, call{addr, tc.ServerName})
+			n := len(calls)
+			mu.Unlock()
+			if n > 50 {
+				return nil, errors.New("too many dials")
+			}
+			return nil, errors.New("scripted dial failure")
+		}
+		pl := map[string]any{"url": c.url, "h2": h2}
+		ctx, cancel := context.WithTimeout(context.Background(), 2*time.Minute) // watchdog only
+		defer cancel()
+		req, _ := http.NewRequestWithContext(ctx, "GET", c.url, nil)
+		r.Guard("literals", i, "literal-host", pl, func() {
+			resp, err := tr.RoundTrip(req)
+			if resp != nil {
+				resp.Body.Close()
+			}
+			mu.Lock()
+			got := append([]call{}, calls...)
+			mu.Unlock()
+			pl["dials"], pl["error"] = got, fmt.Sprint(err)
+			r.Count("literal_host_requests", 1)
+			r.Eval(fmt.Sprintf("literal|%s|%v", c.url, h2))
+			switch {
+			case ctx.Err() != nil:
+				r.Inconclusive("watchdog: the request to %s did not return", c.url)
+			case len(got) == 0:
+				r.Violate("literals", i, "literal:no-dial", fmt.Sprintf("GET %s: DialFunc was never called (err=%v)", c.url, err), pl)
+			case len(got) > 3:
+				r.Violate("literals", i, "literal:dial-loop", fmt.Sprintf("GET %s: %d dials for one request to one address", c.url, len(got)), pl)
+			case got[0].Addr != c.addr:
+				r.Violate("literals", i, "literal:address", fmt.Sprintf("GET %s dialled %s, want %s", c.url, got[0].Addr, c.addr), pl)
+			case got[0].ServerName != c.sn:
+				r.Violate("literals", i, "T3:servername:ip-literal", fmt.Sprintf("GET %s: DialFunc got ServerName %q, want %q", c.url, got[0].ServerName, c.sn), pl)
+			case err == nil:
+				r.Violate("literals", i, "literal:no-error", "every dial failed but RoundTrip returned no error", pl)
+			}
+		})
+	})
+	r.Floor("literal_host_requests", int64(len(cases)*2))
 }
